@@ -5,7 +5,7 @@ Open Scope R_scope.
 (* Coggeshall 7: the returned fields satisfy the documented conservation equations.  *)
 Theorem cog7_pde :
   forall geometry tau b R0 Ri Gamma r t,
-  0 < r -> 0 < t -> t < tau ->
+  0 < r -> 0 < t -> t < tau -> 0 < tau -> 0 < Ri -> 0 < R0 -> 0 < Gamma -> geometry = 1 \/ geometry = 2 \/ geometry = 3 -> 0 < Rpower (r / sqrt (tau ^ 2 - t ^ 2)) (2 - b / ((geometry - 1 + 3) / (geometry - 1 + 1))) - Rpower (Ri / tau) (2 - b / ((geometry - 1 + 3) / (geometry - 1 + 1))) -> 0 < Rpower R0 (2 - b / ((geometry - 1 + 3) / (geometry - 1 + 1))) - Rpower Ri (2 - b / ((geometry - 1 + 3) / (geometry - 1 + 1))) -> 2 * ((geometry - 1 + 3) / (geometry - 1 + 1)) - b <> 0 ->
   euler_at (geometry - 1)
     (cog7_density geometry tau b R0 Ri Gamma)
     (cog7_velocity geometry tau b R0 Ri Gamma)
